@@ -29,3 +29,23 @@ Proof.
   - match type of H with (bind ?X _ = _) => destruct X end; cbn [bind] in H; [|discriminate].
     inversion H; subst. eexists _, _. split; [reflexivity|]. apply jstart_of. tauto.
 Qed.
+
+(* the local fixpoints of the printer, named *)
+Definition dumps_list : list pv -> bool -> Res str :=
+  fix go (l : list pv) (first : bool) : Res str :=
+    match l with
+    | [] => Ok []
+    | x :: l' => sx <- json_dumps x ;; sr <- go l' false ;;
+                 Ok ((if first then [] else [44]) ++ sx ++ sr)
+    end.
+Definition dumps_dict : list (pv * pv) -> bool -> Res str :=
+  fix go (kv : list (pv * pv)) (first : bool) : Res str :=
+    match kv with
+    | [] => Ok []
+    | (k, x) :: kv' => sk <- json_key k ;; sx <- json_dumps x ;; sr <- go kv' false ;;
+                       Ok ((if first then [] else [44]) ++ sk ++ 58 :: sx ++ sr)
+    end.
+Lemma json_dumps_PList l : json_dumps (PList l) = (r <- dumps_list l true ;; Ok (91 :: r ++ [93])).
+Proof. reflexivity. Qed.
+Lemma json_dumps_PDict kv : json_dumps (PDict kv) = (r <- dumps_dict kv true ;; Ok (123 :: r ++ [125])).
+Proof. reflexivity. Qed.
